@@ -1663,6 +1663,16 @@ class Executor:
             else:
                 r = a is b
             return z3.BoolVal(r if isinstance(op, ast.Is) else not r)
+        for x_, y_, flip in ((a, b, False), (b, a, True)):
+            lo = getattr(x_, "len_of", None)
+            if lo is not None and isinstance(y_, Scalar) and z3.is_int_value(y_.z) and y_.z.as_long() == 0:
+                ne = nonempty(lo[0], lo[1])
+                if isinstance(op, ast.Eq):
+                    return z3.Not(ne)
+                if isinstance(op, ast.NotEq):
+                    return ne
+                if (isinstance(op, ast.Gt) and not flip) or (isinstance(op, ast.Lt) and flip):
+                    return ne
         if isinstance(op, (ast.Eq, ast.NotEq)):
             z = self.equal(a, b, st)
             return z if isinstance(op, ast.Eq) else z3.Not(z)
@@ -2237,7 +2247,10 @@ class Executor:
                 n = self.length_of(v, st)
                 if n is None:
                     raise Unsupported("len() of a list whose multiplicities are abstracted")
-                return Scalar(n)
+                r = Scalar(n)
+                if v.mem is not None:
+                    r.len_of = (v.mem, v.esort)  # lets `len(x) == 0` / `!= 0` / `> 0` be read as (non-)emptiness directly
+                return r
             if isinstance(v, Scalar) and isinstance(v.z.sort(), z3.ArraySortRef):
                 return Scalar(self.lib.card(self, Coll("frozenset", v.z.sort().domain(), v.z), st))
             r = self.lib.len_hook(self, v, st)
